@@ -19,6 +19,7 @@ import (
 	"sync"
 	"syscall"
 
+	blocks "github.com/ipfs/go-block-format"
 	"github.com/ipld/go-car/v2/blockstore"
 	"github.com/ipld/go-car/v2/verifhook"
 )
@@ -28,6 +29,9 @@ var bsFaultPlans = []ftPlan{
 	{O: sOpts{Maxcid: 2048, Codec: "sorted", Dpad: 1, Ipad: 7}, Puts: []string{"b12", "b13"}},
 	{O: sOpts{Maxcid: 2048, Codec: "mh", V1: true}, Puts: []string{"b1", "b4"}},
 	{O: sOpts{Maxcid: 2048, Codec: "mh", Ident: true}, Puts: []string{"b6", "b5", "b8"}},
+	// one PutMany of three blocks, then a Put: a fault inside the batch after its first block
+	{O: sOpts{Maxcid: 2048, Codec: "mh"}, Puts: []string{"b1", "b4", "b13", "b9"}, Many: 3},
+	{O: sOpts{Maxcid: 2048, Codec: "sorted", V1: true}, Puts: []string{"b4", "b12", "b1", "b13"}, Many: 3},
 }
 
 func runFaultBsChild(args []string) int {
@@ -76,7 +80,62 @@ func runFaultBsChild(args []string) int {
 	}
 	acked := map[string]bool{}
 	stop := false
-	for _, id := range pl.Puts {
+	if pl.Many > 0 {
+		// What a failed PutMany keeps of its earlier elements is not fixed by the property; what
+		// it keeps must be consistent: the blocks it still reports as stored are a proper prefix of
+		// the batch (the failed block is not among them) and are held to "stored" from here on.
+		var batch []blocks.Block
+		for _, id := range pl.Puts[:pl.Many] {
+			batch = append(batch, mkBlock(alphaByID[id]))
+		}
+		was := fired
+		err := bs.PutMany(bg, batch)
+		if err == nil {
+			for _, id := range pl.Puts[:pl.Many] {
+				acked[id] = true
+			}
+		}
+		if !was && fired {
+			o.Call, o.ErrRet = "putmany", err != nil
+			if err != nil {
+				prefix := true
+				n := 0
+				for _, id := range pl.Puts[:pl.Many] {
+					has, herr := bs.Has(bg, alphaByID[id].Cid)
+					_, gerr := bs.Get(bg, alphaByID[id].Cid)
+					vis := herr == nil && has
+					if vis != (gerr == nil) {
+						o.Visible = true
+						o.Msg += fmt.Sprintf(" after the failed PutMany Has(%s)=%v but Get err=%v;", id, has, gerr)
+					}
+					if vis && !prefix {
+						o.Visible = true
+						o.Msg += " a block after the failed one is reported as stored;"
+					}
+					if vis {
+						acked[id] = true
+						n++
+					} else {
+						prefix = false
+					}
+				}
+				if n == pl.Many {
+					o.Visible = true // every block of the failed call, the failed one included, is reported as stored
+				}
+			}
+			switch cont {
+			case "retry":
+				if err != nil && bs.PutMany(bg, batch) == nil {
+					for _, id := range pl.Puts[:pl.Many] {
+						acked[id] = true
+					}
+				}
+			case "finalize":
+				stop = true
+			}
+		}
+	}
+	for _, id := range pl.Puts[pl.Many:] {
 		if stop {
 			break
 		}
